@@ -3,6 +3,7 @@ INVARIANT Inv
 CONSTANTS
   MaxLen = 6
   MaxTok = 5
+  MaxFrag = 4
   EmitLen = 5
   EmitTok = 4
   Bounded = TRUE
